@@ -285,6 +285,7 @@ def check_ranges_semantic(ctx):
     if not [x for x in seq if x is not None]:
         ctx.undecided('ALG-20', 'ranges written', loc(fi), 'no formatted values captured')
         return False
+    seq = [None if p_ is None else _all_nan_case(p_) for p_ in seq]
     decided = True
     for name, x in (('info.chi2', sym('chi2', R_)), ('info.av', sym('av', R_)), ('info.sc', sym('sc', R_)), ('a parameter column', sym('fp1', R_))):
         want = (mk_fn('nanmin', B(R_, x)), mk_fn('at', B(R_, x), P(Poly())), mk_fn('nanmax', B(R_, x)))
@@ -552,6 +553,31 @@ def check_callers(ctx):
             ctx.undecided('AGREE-6', 'syntactic fall-back', 'sedfitter', 'structure not recognised: %s' % e)
 
 
+def _all_nan_case(p):
+    """where every value of x is NaN (the bracket [len - #isnan(x) == 0] holds) the minimum and the maximum of x are NaN, which is also what nanmin / nanmax
+    give: in the terms that carry that bracket min(x) / max(x) are written as nanmin(x) / nanmax(x), so that "the NaNs dropped unless there is nothing else"
+    has the normal form of nanmin / nanmax"""
+    out = Poly()
+    for m, c in p.t.items():
+        xs = set()
+        for a, e in m:
+            if a[0] == 'ind' and a[1] == '==0':
+                q = Poly.from_key(a[2])
+                for b in q.atoms():
+                    if b[0] == 'sum':
+                        for d in Poly.from_key(b[2]).atoms():
+                            if d[0] == 'ind' and d[1] == 'isnan':
+                                xs.add((b[1], d[2]))
+        term = Poly.const(c)
+        for a, e in m:
+            if a[0] == 'fn' and a[1] in ('min', 'max') and len(a) == 3 and a[2][0] == 'B' and (a[2][1], a[2][2]) in xs:
+                term = term * Poly.atom(('fn', 'nan' + a[1], a[2])).pow(e)
+            else:
+                term = term * Poly.atom(a).pow(e)
+        out = out + term
+    return out
+
+
 def check_ranges(ctx):
     from ..roundtrip import SuspectCtx
     if not check_ranges_semantic(ctx):
@@ -578,6 +604,7 @@ WR = 'sedfitter/write_parameter_ranges.py'
 EP = 'sedfitter/extract_parameters.py'
 P1 = 'sedfitter/plot_params_1d.py'
 MUST_FIRE = [
+    ('undefined values dropped before the range is taken: the best entry becomes the first defined value, not the value of the best fit', [('sedfitter/write_parameter_ranges.py', "                fout.write('%10.3e %10.3e %10.3e ' % (np.nanmin(tsorted[par]), tsorted[par][0], np.nanmax(tsorted[par])))\n", "                values = tsorted[par][~np.isnan(tsorted[par])]\n                if len(values) == 0:\n                    values = tsorted[par]\n                fout.write('%10.3e %10.3e %10.3e ' % (np.min(values), values[0], np.max(values)))\n")]),
     ('additional parameters looked up for all rows at once: the rank among the sorted keys used as a position among the keys', [('sedfitter/fit_info.py', "            table_sorted[par] = np.zeros(len(table_sorted), dtype=float)\n            for i, name in enumerate(table_sorted['MODEL_NAME']):\n                table_sorted[par][i] = additional[par][name.strip()]\n", "            names = np.char.strip(table_sorted['MODEL_NAME'])\n            keys = np.array(list(additional[par].keys()))\n            values = np.array(list(additional[par].values()), dtype=float)\n            order = np.argsort(keys)\n            table_sorted[par] = values[np.searchsorted(keys, names, sorter=order)]\n")]),
     ('additional parameters attached in sorted order while the headers list them in dictionary order', [(FI, "        for par in additional:\n", "        for par in sorted(additional):\n")]),
     ('best value taken from the first fit with a defined value', [(WR, "(np.nanmin(info.av), info.av[0], np.nanmax(info.av))", "(np.nanmin(info.av), info.av[~np.isnan(info.av)][0], np.nanmax(info.av))")]),
@@ -601,6 +628,7 @@ MUST_FIRE = [
                                           "            for info in self._fits[1:]:\n                if info.meta != self._fits[0].meta:\n                    raise ValueError(\"The meta property of all FitInfo instances should match\")\n\n            self._fits = fits\n")]),
 ]
 MUST_SILENT = [
+    ('undefined values dropped for the minimum and the maximum only', [('sedfitter/write_parameter_ranges.py', "                fout.write('%10.3e %10.3e %10.3e ' % (np.nanmin(tsorted[par]), tsorted[par][0], np.nanmax(tsorted[par])))\n", "                values = tsorted[par][~np.isnan(tsorted[par])]\n                if len(values) == 0:\n                    values = tsorted[par]\n                fout.write('%10.3e %10.3e %10.3e ' % (np.min(values), tsorted[par][0], np.max(values)))\n")]),
     ('additional parameters looked up for all rows at once, through the sorting permutation', [('sedfitter/fit_info.py', "            table_sorted[par] = np.zeros(len(table_sorted), dtype=float)\n            for i, name in enumerate(table_sorted['MODEL_NAME']):\n                table_sorted[par][i] = additional[par][name.strip()]\n", "            names = np.char.strip(table_sorted['MODEL_NAME'])\n            keys = np.array(list(additional[par].keys()))\n            values = np.array(list(additional[par].values()), dtype=float)\n            order = np.argsort(keys)\n            table_sorted[par] = values[order[np.searchsorted(keys, names, sorter=order)]]\n")]),
     ('range minimum as the minimum of the defined values', [(WR, "(np.nanmin(info.av), info.av[0], np.nanmax(info.av))", "(info.av[~np.isnan(info.av)].min(), info.av[0], np.nanmax(info.av))")]),
     ('rank by scattering arange through the sorting permutation', [(FI, "index = np.argsort(np.argsort(self.model_name))", "by_name = np.argsort(self.model_name)\n        index = np.empty(len(by_name), dtype=np.intp)\n        index[by_name] = np.arange(len(by_name), dtype=np.intp)")]),
